@@ -199,6 +199,23 @@ theorem condorcetSetRule_scale (s : C11F.CondorcetSet) (k : Rat) (hk : 0 < k) (p
   unfold C11F.condorcetSetRule
   rw [rankedToCondorcetVotes_linear, condorcetSet_scale s k hk]
 
+/-- **RankedToCondorcetVotes(unranked_at_bottom=False) is linear**: the converter's other mode (incomplete dictionaries). -/
+theorem rankedToCondorcetVotesNoBottom_linear (k : Rat) (p : Condorcet.Profile) :
+    Condorcet.rankedToCondorcetNoBottom (scaleRanked k p) = scalePairwise k (Condorcet.rankedToCondorcetNoBottom p) :=
+  VL.Scale.rankedToCondorcetNoBottomR_scale k p
+
+/-- **The Condorcet families on incomplete pairwise dictionaries**:
+    `PreConverted(RankedToCondorcetVotes(unranked_at_bottom=False), EVALUATORS[name])`. -/
+theorem condorcetRuleNoBottom_scale (ev : C11F.CondorcetEv) (k : Rat) (hk : 0 < k) (p : Condorcet.Profile) (n : Nat) :
+    C11F.condorcetRuleNoBottom ev (scaleRanked k p) n = C11F.condorcetRuleNoBottom ev p n := by
+  unfold C11F.condorcetRuleNoBottom
+  rw [rankedToCondorcetVotesNoBottom_linear, condorcetEv_scale ev k hk]
+
+theorem condorcetSetRuleNoBottom_scale (s : C11F.CondorcetSet) (k : Rat) (hk : 0 < k) (p : Condorcet.Profile) :
+    C11F.condorcetSetRuleNoBottom s (scaleRanked k p) = C11F.condorcetSetRuleNoBottom s p := by
+  unfold C11F.condorcetSetRuleNoBottom
+  rw [rankedToCondorcetVotesNoBottom_linear, condorcetSet_scale s k hk]
+
 /-- **Benham** (Condorcet winner, else eliminate by first preferences): the whole elimination loop is simulated. -/
 theorem benham_scale (k : Rat) (hk : 0 < k) (p : Condorcet.Profile) :
     Condorcet.benham (scaleRanked k p) = Condorcet.benham p := VL.Scale.benham_scale k hk p
